@@ -21,6 +21,11 @@ pub enum SchedKind {
     Stall { victim: u8, start: u32, len: u32 },
     /// round robin (serial references, liveness phase)
     Fair,
+    /// task `first` runs whenever it can until it has been chosen `after` times, is then withheld
+    /// while any other task can run (the others run in long bursts, i.e. whole transactions fit
+    /// between two steps of `first`), and resumes afterwards: every point of a short transaction
+    /// is reached as a place where somebody else's commit lands, however long the others are
+    Handoff { first: u8, after: u32 },
 }
 
 #[derive(Clone, Debug, Serialize, Deserialize, PartialEq)]
@@ -50,6 +55,8 @@ pub struct SchedOut {
     pub replay_diverged: bool,
     pub max_tasks: usize,
     pub hash: u64,
+    /// multi-candidate decisions won by each task id
+    pub per_task: Vec<u32>,
 }
 
 pub struct SimScheduler {
@@ -61,6 +68,7 @@ pub struct SimScheduler {
     prio: Vec<u64>,
     change_points: Vec<u32>,
     rr_last: usize,
+    handoff_own: u32,
 }
 
 impl SimScheduler {
@@ -83,6 +91,7 @@ impl SimScheduler {
                 prio: vec![],
                 change_points,
                 rr_last: 0,
+                handoff_own: 0,
             },
             out,
         )
@@ -200,6 +209,28 @@ impl Scheduler for SimScheduler {
                             runnable[self.rng.below(runnable.len())]
                         }
                     }
+                    SchedKind::Handoff { first, after } => {
+                        let me = runnable.iter().copied().find(|&i| usize::from(tasks[i].id()) == first as usize);
+                        let others: Vec<usize> = runnable.iter().copied().filter(|&i| usize::from(tasks[i].id()) != first as usize).collect();
+                        match me {
+                            Some(i) if self.handoff_own < after || others.is_empty() => {
+                                self.handoff_own += 1;
+                                i
+                            }
+                            _ => {
+                                // `first` not there yet (the lowest id, the spawner, goes on), or withheld
+                                if self.handoff_own < after {
+                                    *others.iter().min_by_key(|&&i| usize::from(tasks[i].id())).unwrap()
+                                } else {
+                                    let keep = cur.and_then(|c| others.iter().copied().find(|&i| usize::from(tasks[i].id()) == c));
+                                    match keep {
+                                        Some(i) if !is_yielding && self.rng.below(1000) < 970 => i,
+                                        _ => others[self.rng.below(others.len())],
+                                    }
+                                }
+                            }
+                        }
+                    }
                     SchedKind::Fair => {
                         let ids: Vec<usize> = runnable.iter().map(|&i| usize::from(tasks[i].id())).collect();
                         let next = ids.iter().copied().filter(|&id| id > self.rr_last).min().unwrap_or_else(|| *ids.iter().min().unwrap());
@@ -213,6 +244,10 @@ impl Scheduler for SimScheduler {
         if Some(id) != cur {
             o.context_switches += 1;
         }
+        if o.per_task.len() <= id {
+            o.per_task.resize(id + 1, 0);
+        }
+        o.per_task[id] += 1;
         o.trace.push(id as u8);
         o.hash = mix64(o.hash ^ (id as u64 + 1));
         // publishing on every decision would be wasteful; panics and deadlocks unwind through
